@@ -4,7 +4,7 @@
    alternatives / callable types, EVERY choice [trk] of which alternatives are instrumented class
    types (the others have no special members to run), both element flavours, EVERY history of the
    operations of ModelOwn.oop on two objects, in all from/to index combinations. *)
-From Tetl Require Import Lib.Base C03.Trace C03.Model C03.ModelOwn C03.Spec C03.ProofsRun C03.ProofsOwn C03.ProofsOwnStorage C03.ProofsOwnDomain C03.ProofsOwnSelf.
+From Tetl Require Import Lib.Base C03.Trace C03.Model C03.ModelOwn C03.Spec C03.ProofsRun C03.ProofsOwn C03.ProofsOwnStorage C03.ProofsOwnDomain C03.ProofsOwnSelf C03.ProofsMeetsSpec.
 
 (* a history in which no precondition is violated (fn = true: no empty function is invoked),
    from the default construction of the two objects to their destructors: well formed, nothing alive *)
@@ -61,6 +61,15 @@ Theorem C03_own_self_identity : forall (fl : bool) (trk : nat -> bool) (fn : boo
   own_self_checks fl trk fn ops = repeat true (own_count_self ops).
 Proof. exact own_self_identity. Qed.
 Print Assumptions C03_own_self_identity.
+
+(* model = specification (verdict, self-operation identities, storage exclusivity); for
+   inplace_function objects the history consists of inplace_function operations *)
+Theorem C03_own_meets_spec : forall (fl : bool) (trk : nat -> bool) (fn : bool) (ops : list oop),
+  (fn = true -> forallb is_fun_op ops = true) ->
+  forall v, own_spec_verdict ops = Some v ->
+  (snd (own_run_case fl trk fn ops), own_self_checks fl trk fn ops, storage_wf (own_trace fl trk fn ops)) = v.
+Proof. exact own_meets_spec. Qed.
+Print Assumptions C03_own_meets_spec.
 
 Example C03_own_nonvacuous :
   own_completed true (trk_of [0; 2]) false
